@@ -141,6 +141,11 @@ func (t *target) drain() {
 // connection and deliver a UDP datagram. Returns "" or what failed.
 func (t *target) probes(idx int) string {
 	// let virtual time pass: retransmission and reassembly timers armed during the barrage fire
+	// the application sends to neighbours that never answer: the resolutions fail during
+	// the pause below, and the next batch brings ARP frames from exactly those addresses
+	for i := 0; i < 2; i++ {
+		t.uep.Write(tcpip.SlicePayload([]byte("anyone there?")), tcpip.WriteOptions{To: &tcpip.FullAddress{Addr: tcpip.Address([]byte{10, 0, 0, byte(50 + (idx+i)%4)}), Port: 9}})
+	}
 	time.Sleep(3500 * time.Millisecond) // long enough for a resolution nobody answers to fail (3 x 1 s)
 	rawpeer.Settle()
 	t.drain()
